@@ -42,6 +42,8 @@ def make(c):
     tc = c.get('timech')
     if tc == 'two':
         names = ['Time', 'FL1', 'TIME']
+    elif isinstance(tc, (list, tuple)):
+        names = list(tc)
     elif tc:
         names = ['FSC', 'FL1', tc]
     present = set(c.get('present', ()))
@@ -57,17 +59,21 @@ def make(c):
             add(k, val.get(k, GOOD[k]))
     if c.get('creator'):
         add('CREATOR', c['creator'])
+    mask = c.get('chanmask') or {}       # group -> channel positions that carry the keyword (default: every channel)
+
+    def has(g, j):
+        return g in present and (g not in mask or j in mask[g])
     for j in range(NCH):
         n = j + 1
-        if 'PnV' in present:
+        if has('PnV', j):
             add('$P%dV' % n, val.get('$P%dV' % n, str(100 + 50.5 * j)))
-        if 'PnG' in present:
+        if has('PnG', j):
             add('$P%dG' % n, val.get('$P%dG' % n, str(1.5 * n)))
-        if 'PnS' in present:
+        if has('PnS', j):
             add('$P%dS' % n, 'label %d' % n)
-        if 'BDWORD' in present:
+        if has('BDWORD', j):
             add('BD$WORD%d' % (12 + n), val.get('BD$WORD%d' % (12 + n), str(400 + n)))
-        if 'CYTEK' in present:
+        if has('CYTEK', j):
             add('CytekP%02dG' % n, val.get('CytekP%02dG' % n, str(2.25 * n)))
     pne = (['0,0', '4,1', '3.5,0'] + ['4.0,0.0', '2,0.00', '0.0,0.0', '3,1.0', '4,0'] * 5)[:NCH]
     ranges = ([1024, 256, 1000] + [1024, 4096, 512] * 8)[:NCH]
@@ -236,6 +242,24 @@ def cases(tier, seed):
         for present in (['$TIMESTEP', '$BTIM', '$ETIM'], ['$TIMESTEP', '$BTIM', '$ETIM', '$DATE'], ['TIMETICKS', '$BTIM', '$ETIM'], ['$TIMESTEP'], ['$BTIM', '$ETIM']):
             for tc in ('Time', 'TIME', None):
                 yield dict(kind='elapsed-zero', present=present, creator=None, timech=tc, timevals=tv)
+    # (A3) the per-channel keywords present for some channels only: every subset of four channels, per keyword group and for
+    # the standard keyword together with its vendor fallback
+    for g, cr in (('PnV', None), ('PnG', None), ('PnS', None), ('BDWORD', CREATORS[1]), ('CYTEK', CREATORS[2])):
+        for m in itertools.product([0, 1], repeat=4):
+            sel = [j for j in range(4) if m[j]]
+            yield dict(kind='perchannel', present=[g], chanmask={g: sel}, creator=cr, timech=None, nch=4)
+    for g, fb, cr in (('PnV', 'BDWORD', CREATORS[1]), ('PnG', 'CYTEK', CREATORS[2])):
+        for m in itertools.product([0, 1, 2, 3], repeat=3):      # per channel: neither, standard, fallback, both
+            yield dict(kind='perchannel', present=[g, fb], creator=cr, timech='Time', nch=3,
+                       chanmask={g: [j for j in range(3) if m[j] in (1, 3)], fb: [j for j in range(3) if m[j] in (2, 3)]})
+    # (A4) channels whose name merely contains "time" are measurements, not the time channel
+    for odd in ('Lifetime-A', 'TimeOfFlight', 'Dwell Time', 'timer', 'Time ', ' time', 'Time-H', 'TIME2', 'Ti me'):
+        for names in (['FSC', 'FL1', odd], ['Time', 'FL1', odd], [odd, 'FL1', 'TIME']):
+            for r in range(0, 6):
+                for present in itertools.combinations(['$TIMESTEP', 'TIMETICKS', '$BTIM', '$ETIM', '$DATE'], r):
+                    if r in (2, 3) and '$TIMESTEP' not in present and 'TIMETICKS' not in present and tier == 'quick':
+                        continue
+                    yield dict(kind='timenames', present=list(present), creator=None, timech=names)
     # (B) formats
     for bt in TIMEFMT:
         for et in TIMEFMT:
